@@ -100,6 +100,26 @@ def run(chk: core.Check, replay=None) -> None:
                     elif x1 != x2:
                         okm = False
         pair(dd, "C12.Mirror", okm, partner=a["tid"])
+    # ---- mirror symmetry with spin drift in play (right/left twist, bullet dimensions): "spin drift aside" - the state the
+    # solver integrates (before spin drift is added to the rows) must mirror exactly: x, y, t, vx, vy identical, z and vz negated
+    for i in range(max(2, n // 3)):
+        p = shots.gen_shot(rng, winds=0, spin=True, look=rng.choice([0.0, 3.0]))
+        p.update({"weight_gr": 168, "diameter_in": 0.308, "length_in": 1.2, "twist_in": rng.choice([10, -9])})
+        w = scen.wind_list(rng, "multi")
+        sc = {"shot": dict(p, winds=w), "cfg": {"max_calc_step_size_feet": 2.0}, "range_ft": 900.0, "unit": "Foot", "step_ft": 300.0, "extra": False}
+        a = fire(sc)
+        sc2 = copy.deepcopy(sc)
+        sc2["shot"]["winds"] = [[x[0], -x[1], x[2]] for x in w]
+        b = fire(sc2)
+        ia, ib = a.get("iter_fp", []), b.get("iter_fp", [])
+        ok = len(ia) == len(ib) and len(ia) > 0
+        if ok:
+            for (ra, va, ta), (rb, vb, tb) in zip(ia, ib):
+                if not (ra.x == rb.x and ra.y == rb.y and ta == tb and va.x == vb.x and va.y == vb.y and ra.z == -rb.z and va.z == -vb.z):
+                    ok = False
+                    break
+        pair(b, "C12.Mirror", ok, partner=a["tid"], what="iteration states with spin drift in play")
+        chk.stratum("mirror_with_spin")
     # ---- zero wind / empty list / no wind, and the sign conventions
     for i in range(max(2, n // 3)):
         sc = base_scenario(rng, thorough, 0, [])
@@ -143,7 +163,7 @@ def run(chk: core.Check, replay=None) -> None:
     chk.sample({"pair_lines": pairs[:3]})
     chk.sample({"tlc_behaviour": {k: v for k, v in behs[0].items() if k != "consts"}})
     chk.require_strata(["obj_duplicate_wind_ends", "duplicate_until", "zero_until", "switch_inside_range", "pair_OrderInsensitive",
-                        "pair_Causal", "pair_Mirror", "pair_ZeroWindEqualsNoWind", "pair_Signs"])
+                        "pair_Causal", "pair_Mirror", "mirror_with_spin", "pair_ZeroWindEqualsNoWind", "pair_Signs"])
     chk.exhaustive = False
     chk.rule.append("design: Integrator.tla (C12_SegmentByPosition) on wind-end lists with duplicates, zeros and ends beyond range; "
                     "spec->code: TLC behaviours replayed into the real _WindSock (scrambled input order); code->spec: real shots with "
